@@ -666,9 +666,7 @@ class TableAttributes(TextAttributes):
             for j in range(dim[1]):
                 if j == dim[1] - 1:
                     border_right = Border(
-                        style=BroadcastValue(
-                            value=self.border_right, dimension=dim
-                        ).iloc(i, j)
+                        style=get_broadcast_value("border_right", i, j)
                     )
                 else:
                     border_right = None
